@@ -8,7 +8,10 @@ use std::hash::{Hash, Hasher};
 use yrs::block::BlockRange;
 use yrs::updates::decoder::Decode;
 use yrs::updates::encoder::Encode;
-use yrs::{ClientID, ContentAttribute, Diff, IdMap, IdSet, ID};
+use yrs::{
+    Array, ArrayPrelim, ClientID, ContentAttribute, Diff, Doc, IdMap, IdSet, In, MapPrelim, Options, ReadTxn,
+    StateVector, Text, Transact, Update, ID,
+};
 
 pub type Map = IdMap<u8>;
 
@@ -845,6 +848,25 @@ pub fn validate(case: &Case) -> Result<(), String> {
         Op::FindStart { .. } => set_only("find_start (use op attributions for idmap)"),
         Op::ClockStart { .. } => set_only("clock_start"),
         Op::ClockEnd { .. } => set_only("clock_end"),
+        Op::NonMut { which } => {
+            if !NONMUT_KINDS.contains(&which.as_str()) {
+                return Err(format!("unknown non-mutating operation {:?}", which));
+            }
+            set_only("nonmut (IdSet::merge / diff / intersect)")
+        }
+        Op::FromIdMap { method } => {
+            if !case.is_map {
+                return Err("from_idmap exists for variant idmap only".into());
+            }
+            if build_alt::<Map>(&O::empty(), method, 0).is_none() {
+                return Err(format!("build method {:?} is not applicable to idmap", method));
+            }
+            Ok(())
+        }
+        Op::FromStore(script) => {
+            set_only("from_store")?;
+            script.outcome().map(|_| ())
+        }
         _ => Ok(()),
     }
 }
@@ -1009,6 +1031,9 @@ fn run_generic<S: Sut>(case: &Case) -> Result<(), Failure> {
             };
             check_attributions(&case.state, ci, *s, *e, &got)
         }
+        Op::NonMut { which } => run_nonmut(&case.state, other_o, which),
+        Op::FromIdMap { method } => run_from_idmap(&case.state, method, case.universe),
+        Op::FromStore(script) => run_from_store(script),
     }
 }
 
@@ -1068,6 +1093,23 @@ fn actual_generic<S: Sut>(case: &Case) -> J {
             Some(p) => J::obj(vec![("pieces", runs_json(&p, true))]),
             None => J::Null,
         },
+        Op::NonMut { which } => {
+            let a: IdSet = build(&case.state);
+            let b: IdSet = build_other(other_o);
+            read_id_set(&nonmut_apply(&a, &b, which).1).to_json(false)
+        }
+        Op::FromIdMap { method } => match build_alt::<Map>(&case.state, method, case.universe) {
+            Some(map) => read_id_set(&IdSet::from(map)).to_json(false),
+            None => J::Null,
+        },
+        Op::FromStore(script) => match script.outcome() {
+            Ok(_) => {
+                let docs = run_script(script, script.gc);
+                let ds = docs[0].transact().snapshot().delete_set;
+                read_id_set(&ds).to_json(false)
+            }
+            Err(_) => J::Null,
+        },
     }
 }
 
@@ -1121,6 +1163,314 @@ fn check_attributions(o: &O, ci: usize, s: u32, e: u32, got: &[Run]) -> Result<(
     }
     if got != exp.as_slice() {
         return Err(fail("not canonical: attributions pieces are not maximal"));
+    }
+    Ok(())
+}
+
+// ---------------------------------------------------------------------------
+// lifted operations: non-mutating set algebra, IdMap -> IdSet, delete set of a store
+// ---------------------------------------------------------------------------
+
+fn property_failure(api: &str, exp: &O, property: &str, actual: J) -> Failure {
+    let mut expected = expected_json(exp, false, !exp.client_is_empty(1));
+    expected.push_field("property", J::str(property));
+    Failure {
+        why: "equality/encoding mismatch".to_string(),
+        expected,
+        actual,
+        api: api.to_string(),
+    }
+}
+
+/// `(api, non-mutating result, api of the mutating variant, its result on a clone)`.
+fn nonmut_apply(a: &IdSet, b: &IdSet, which: &str) -> (&'static str, IdSet, &'static str, IdSet) {
+    let mut m = a.clone();
+    match which {
+        "merge" => {
+            m.merge_with(b.clone());
+            ("IdSet::merge", a.merge(b), "IdSet::merge_with", m)
+        }
+        "intersect" => {
+            m.intersect_with(b);
+            ("IdSet::intersect", a.intersect(b), "IdSet::intersect_with", m)
+        }
+        _ => {
+            m.diff_with(b);
+            ("IdSet::diff", a.diff(b), "IdSet::diff_with", m)
+        }
+    }
+}
+
+fn run_nonmut(ao: &O, bo: &O, which: &str) -> Result<(), Failure> {
+    let a: IdSet = build(ao);
+    let b: IdSet = build_other(bo);
+    let exp = match which {
+        "merge" => ao.merge(bo),
+        "intersect" => ao.intersect(bo),
+        _ => ao.exclude(bo),
+    };
+    let (api, r, mut_api, m) = nonmut_apply(&a, &b, which);
+    // points, canonical form, no client entry without ranges, is_empty() iff no
+    // points, == canonical build of the expected value, encode_v1 / Hash
+    check_result(&r, &exp, 1, api)?;
+    if r != m || m != r || r.encode_v1() != m.encode_v1() {
+        return Err(property_failure(
+            api,
+            &exp,
+            &format!("a.{}(&b) == {{ let mut c = a.clone(); c.{}(b); c }}", which, &mut_api[7..]),
+            J::obj(vec![
+                ("non_mutating", read_id_set(&r).to_json(false)),
+                ("mutating", read_id_set(&m).to_json(false)),
+            ]),
+        ));
+    }
+    check_result(&m, &exp, 0, mut_api)?;
+    // the operands are unchanged
+    check_result(&a, ao, 0, &format!("{} (left operand afterwards)", api))?;
+    check_result(&b, bo, 0, &format!("{} (right operand afterwards)", api))?;
+    if exp.is_empty() {
+        let empty = IdSet::new();
+        if r != empty || empty != r || !r.is_empty() || r.len() != 0 {
+            return Err(property_failure(
+                api,
+                &exp,
+                "a result without points == IdSet::new(), is_empty() and len() == 0",
+                read_id_set(&r).to_json(false),
+            ));
+        }
+    }
+    Ok(())
+}
+
+fn run_from_idmap(o: &O, method: &str, universe: u32) -> Result<(), Failure> {
+    let map: Map = match build_alt(o, method, universe) {
+        Some(m) => m,
+        None => return Ok(()),
+    };
+    // the map itself must be the intended one (adjacent ranges with different
+    // attribute sets stay separate there)
+    check_result(&map, o, 0, &format!("IdMap::insert (build:{})", method))?;
+    let exp = o.as_set();
+    let from: IdSet = IdSet::from(map.clone());
+    let as_set: IdSet = map.as_id_set();
+    check_result(&from, &exp, 1, "IdSet::from(IdMap)")?;
+    check_result(&as_set, &exp, 1, "IdMap::as_id_set")?;
+    // the set built directly by inserting the clocks one by one
+    let direct: IdSet = build_alt(&exp, "asc_singles", universe).unwrap();
+    let same = |x: &IdSet, y: &IdSet| x == y && y == x && x.encode_v1() == y.encode_v1() && hash_of(x) == hash_of(y);
+    if !same(&from, &as_set) {
+        return Err(property_failure(
+            "IdSet::from(IdMap)",
+            &exp,
+            "IdSet::from(map) == map.as_id_set() (PartialEq, encode_v1, Hash)",
+            J::obj(vec![
+                ("from", read_id_set(&from).to_json(false)),
+                ("as_id_set", read_id_set(&as_set).to_json(false)),
+            ]),
+        ));
+    }
+    for (api, x) in [("IdSet::from(IdMap)", &from), ("IdMap::as_id_set", &as_set)] {
+        if !same(x, &direct) {
+            return Err(property_failure(
+                api,
+                &exp,
+                "result == set built by inserting every clock (PartialEq, encode_v1, Hash)",
+                read_id_set(x).to_json(false),
+            ));
+        }
+    }
+    // the conversion does not disturb the map (as_id_set borrows it)
+    check_result(&map, o, 0, "IdMap::as_id_set (map afterwards)")
+}
+
+fn nested_value(kind: &str, children: u32) -> In {
+    let keys = (0..children).map(|k| format!("k{}", k));
+    match kind {
+        "array" => In::Array(ArrayPrelim::from((0..children).map(|k| k as i64).collect::<Vec<i64>>())),
+        "map" => In::Map(keys.map(|k| (k, 1i64)).collect::<MapPrelim>()),
+        "array_map" => In::Array(
+            (0..children)
+                .map(|_| In::Map(MapPrelim::from([("k", 1i64)])))
+                .collect::<ArrayPrelim>(),
+        ),
+        _ => In::Map(
+            keys.map(|k| (k, In::Array(ArrayPrelim::from(vec![1i64]))))
+                .collect::<MapPrelim>(),
+        ),
+    }
+}
+
+/// Full two-way synchronisation through the public update API.
+fn sync_docs(docs: &[Doc]) {
+    if docs.len() < 2 {
+        return;
+    }
+    for (from, to) in [(0usize, 1usize), (1, 0)] {
+        let sv = docs[to].transact().state_vector();
+        let bytes = docs[from].transact().encode_state_as_update_v1(&sv);
+        let update = Update::decode_v1(&bytes).expect("decode_v1 of an update just encoded");
+        docs[to]
+            .transact_mut()
+            .apply_update(update)
+            .expect("apply_update of a peer's state");
+    }
+}
+
+/// Executes `script` against fresh documents (client ids 1 and 2) through the
+/// public API only; the documents are synchronised at the end.
+pub fn run_script(script: &StoreScript, gc: bool) -> Vec<Doc> {
+    let docs: Vec<Doc> = (0..script.clients())
+        .map(|ci| {
+            let mut options = Options::with_client_id(cid(CLIENTS[ci]));
+            options.skip_gc = !gc;
+            Doc::with_options(options)
+        })
+        .collect();
+    let is_text = script.doc == "text";
+    let mut i = 0;
+    let mut active: Option<usize> = None;
+    while i < script.steps.len() {
+        let ci = client_index(script.steps[i].client()).unwrap();
+        if active.is_some() && active != Some(ci) {
+            sync_docs(&docs);
+        }
+        active = Some(ci);
+        // steps i..j share one transaction in mode `whole`
+        let mut j = i + 1;
+        if script.txn == "whole" {
+            while j < script.steps.len() && script.steps[j].client() == script.steps[i].client() {
+                j += 1;
+            }
+        }
+        let doc = &docs[ci];
+        let text = doc.get_or_insert_text("root");
+        let array = doc.get_or_insert_array("root");
+        let mut txn = if script.txn == "per_call" { None } else { Some(doc.transact_mut()) };
+        for step in &script.steps[i..j] {
+            // one public call, inside the open transaction or inside its own
+            let mut call = |f: &mut dyn FnMut(&mut yrs::TransactionMut)| match txn.as_mut() {
+                Some(t) => f(t),
+                None => f(&mut doc.transact_mut()),
+            };
+            match step {
+                Step::Push { n, .. } => {
+                    for k in 0..*n {
+                        call(&mut |t| {
+                            if is_text {
+                                let at = text.len(t);
+                                text.insert(t, at, "x");
+                            } else {
+                                array.push_back(t, k as i64);
+                            }
+                        });
+                    }
+                }
+                Step::PushNested { kind, children, .. } => call(&mut |t| {
+                    array.push_back(t, nested_value(kind, *children));
+                }),
+                Step::Remove { index, len, .. } => call(&mut |t| {
+                    if is_text {
+                        text.remove_range(t, *index, *len);
+                    } else {
+                        array.remove_range(t, *index, *len);
+                    }
+                }),
+            }
+        }
+        drop(txn);
+        i = j;
+    }
+    sync_docs(&docs);
+    docs
+}
+
+fn run_from_store(script: &StoreScript) -> Result<(), Failure> {
+    let out = match script.outcome() {
+        Ok(o) => o,
+        Err(_) => return Ok(()), // rejected by `validate`
+    };
+    let exp = out.deleted;
+    let docs = run_script(script, script.gc);
+    let mut sets: Vec<IdSet> = Vec::new();
+    for (di, doc) in docs.iter().enumerate() {
+        let on = if docs.len() > 1 { format!(" (doc of client {})", CLIENTS[di]) } else { String::new() };
+        let api = format!("ReadTxn::snapshot().delete_set{}", on);
+        let snapshot = doc.transact().snapshot();
+        // the clock tracking of the oracle itself: state vector as predicted
+        for ci in 0..2 {
+            let got = snapshot.state_map.get(&cid(CLIENTS[ci]));
+            if got != out.next[ci] {
+                return Err(Failure {
+                    why: "clocks differ".to_string(),
+                    expected: J::obj(vec![
+                        ("property", J::str("state vector clock of the client as tracked by the oracle")),
+                        ("client", J::Num(CLIENTS[ci] as i64)),
+                        ("value", J::num(out.next[ci])),
+                    ]),
+                    actual: J::obj(vec![("value", J::num(got))]),
+                    api: format!("ReadTxn::snapshot().state_map{}", on),
+                });
+            }
+        }
+        let ds = snapshot.delete_set;
+        // points == deleted ids, canonical, no client entry without ranges,
+        // is_empty() iff nothing deleted, == canonical build, encode_v1 / Hash
+        check_result(&ds, &exp, 1, &api)?;
+        // every id reported deleted lies below the state vector
+        for r in read_id_set(&ds).ranges {
+            if r.e > snapshot.state_map.get(&cid(r.client)) {
+                return Err(property_failure(
+                    &api,
+                    &exp,
+                    "every deleted id is below the state vector clock of its client",
+                    read_id_set(&ds).to_json(false),
+                ));
+            }
+        }
+        // the same set as it travels inside a full-state update
+        let bytes = doc.transact().encode_state_as_update_v1(&StateVector::default());
+        match Update::decode_v1(&bytes) {
+            Ok(u) => check_result(
+                u.delete_set(),
+                &exp,
+                0,
+                &format!("Update::decode_v1(encode_state_as_update_v1).delete_set(){}", on),
+            )?,
+            Err(e) => {
+                return Err(property_failure(
+                    &api,
+                    &exp,
+                    "decode_v1(encode_state_as_update_v1(..)) succeeds",
+                    J::obj(vec![("error", J::str(&e.to_string()))]),
+                ))
+            }
+        }
+        sets.push(ds);
+    }
+    if sets.len() == 2 && (sets[0] != sets[1] || sets[0].encode_v1() != sets[1].encode_v1()) {
+        return Err(property_failure(
+            "ReadTxn::snapshot().delete_set",
+            &exp,
+            "synchronised documents report the same delete set",
+            J::obj(vec![
+                ("doc1", read_id_set(&sets[0]).to_json(false)),
+                ("doc2", read_id_set(&sets[1]).to_json(false)),
+            ]),
+        ));
+    }
+    // garbage collection must not change which ids are reported deleted
+    let other = run_script(script, !script.gc);
+    let ds_other = other[0].transact().snapshot().delete_set;
+    if ds_other != sets[0] || sets[0] != ds_other || ds_other.encode_v1() != sets[0].encode_v1() {
+        return Err(property_failure(
+            "ReadTxn::snapshot().delete_set",
+            &exp,
+            "the delete set is identical with garbage collection on and off",
+            J::obj(vec![
+                (if script.gc { "gc_on" } else { "gc_off" }, read_id_set(&sets[0]).to_json(false)),
+                (if script.gc { "gc_off" } else { "gc_on" }, read_id_set(&ds_other).to_json(false)),
+            ]),
+        ));
     }
     Ok(())
 }
